@@ -261,8 +261,27 @@ def new_ghe():
     return ghe_factory.make_ghe(coords, pipe="single", H=100.0, loads=[x * 2.0 for x in loadgen.atlanta_like(0.6)], months=12, hvals=[60.0, 97.5, 135.0])
 
 
+def new_ghe_one_curve():
+    """a GHE whose long-time family holds ONE curve, computed for another borehole radius than the one simulated"""
+    from vf import loadgen
+
+    coords = [(i * 6.0, j * 6.0) for i in range(2) for j in range(2)]
+    gf = ghe_factory.table_gfunction(coords, 6.0, [100.0], 0.070)
+    return ghe_factory.make_ghe(coords, pipe="single", H=100.0, loads=[x * 1.0 for x in loadgen.atlanta_like(0.6)], months=12, gfunc=gf, rb=0.075)
+
+
 def do_action(ghe, a):
     from ghedesigner.enums import TimestepType
+
+    if a in ("m12", "m24"):
+        ghe.sim_params.end_month = int(a[1:])
+        return ["months", int(a[1:])]
+    if a == "hybP":
+        r = ghe.simulate(method=TimestepType.HYBRID)
+        return [physics.fhex(r[0]), physics.fhex(r[1]), len(ghe.hp_eft)]
+    if a == "hourP":
+        r = ghe.simulate(method=TimestepType.HOURLY)
+        return [physics.fhex(r[0]), physics.fhex(r[1]), len(ghe.hp_eft)]
 
     if a.startswith("hyb"):
         ghe.bhe.b.H = float(a[3:])
@@ -280,19 +299,26 @@ _PROTO = {}
 
 
 def run_objects(case, res):
-    if "ghe" not in _PROTO:
-        _PROTO["ghe"] = new_ghe()
-        _PROTO["fresh"] = {}
-    proto = _PROTO["ghe"]
+    pname = case.get("proto", "multi")
+    if pname not in _PROTO:
+        _PROTO[pname] = new_ghe() if pname == "multi" else new_ghe_one_curve()
+        _PROTO[pname + "/fresh"] = {}
+    proto = _PROTO[pname]
+    freshd = _PROTO[pname + "/fresh"]
     for seq in case["seqs"]:
         last = seq[-1]
-        if last not in _PROTO["fresh"]:
+        # the configuration in force at the last call (months), so that the fresh object is configured alike
+        months = next((a for a in reversed(seq[:-1]) if a in ("m12", "m24")), None)
+        fkey = (months, last)
+        if fkey not in freshd:
             g = copy.deepcopy(proto)
             try:
-                _PROTO["fresh"][last] = ("ok", do_action(g, last))
+                if months:
+                    do_action(g, months)
+                freshd[fkey] = ("ok", do_action(g, last))
             except Exception as e:  # noqa: BLE001
-                _PROTO["fresh"][last] = ("exc", type(e).__name__)
-        want = _PROTO["fresh"][last]
+                freshd[fkey] = ("exc", type(e).__name__)
+        want = freshd[fkey]
         g = copy.deepcopy(proto)
         res["evals"] += 1
         got = None
@@ -338,7 +364,13 @@ def main(run: core.Run, only=None):
     run.drive(cfgs, family="config")
     seqs = [list(s) for n in (1, 2, 3) for s in itertools.product(OBJ_ACTIONS, repeat=n)]
     step = 8
-    run.drive([{"family": "objects", "seqs": seqs[i:i + step]} for i in range(0, len(seqs), step)], family="objects")
+    ocases = [{"family": "objects", "seqs": seqs[i:i + step]} for i in range(0, len(seqs), step)]
+    one = [list(sq) for n in (1, 2, 3) for sq in itertools.product(("hybP", "hourP"), repeat=n)]
+    ocases.append({"family": "objects", "proto": "one_curve", "seqs": one})
+    sims = ("hyb65", "hyb80", "hour80")
+    months = [["m24", a, "m12", b] for a in sims for b in sims] + [["m24", a, b] for a in sims for b in sims] + [["m24", "hour80", "m12", "hour80", "hour80"]]
+    ocases += [{"family": "objects", "seqs": months[i:i + 5]} for i in range(0, len(months), 5)]
+    run.drive(ocases, family="objects")
     hs = histories(3 if quick else 4)
     dcfgs = [{"method": "nearsquare", "pipe": "single"}, {"method": "rowwise", "pipe": "double_parallel", "flow": "system"}]
     if not quick:
